@@ -12,23 +12,14 @@ Definition within_all (L : layout) (s : state) (v : Z) : Prop :=
   (l_min L = true -> vmin s <= v) /\
   (l_max L = true -> v <= vmax s).
 
-(* what the code guarantees in every layout: the limits tuple if there is one, otherwise min / max *)
-Definition within_effective (L : layout) (s : state) (v : Z) : Prop :=
-  l_lo L <= v <= l_hi L /\
-  if l_lim L then fst (vlim s) <= v <= snd (vlim s)
-  else (l_min L = true -> vmin s <= v) /\ (l_max L = true -> v <= vmax s).
-
-(* the finding class: a limits tuple together with a_min or a_max *)
-Definition shadowed (L : layout) : bool := l_lim L && (l_min L || l_max L).
-
 Lemma check_limits_sound : forall L s v, check_limits L s v = true ->
-  if l_lim L then fst (vlim s) <= v <= snd (vlim s)
-  else (l_min L = true -> vmin s <= v) /\ (l_max L = true -> v <= vmax s) /\
-       (l_min L = true -> l_max L = true -> vmin s <= vmax s).
+  (l_lim L = true -> fst (vlim s) <= v <= snd (vlim s)) /\
+  (l_min L = true -> vmin s <= v) /\ (l_max L = true -> v <= vmax s) /\
+  (l_min L = true -> l_max L = true -> vmin s <= vmax s).
 Proof.
-  intros L s v H. unfold check_limits in H. destruct (l_lim L).
-  - apply andb_prop in H. destruct H as (H1 & H2). apply Z.leb_le in H1, H2. lia.
-  - destruct (l_min L) eqn:Em, (l_max L) eqn:Ex; simpl in H.
+  intros L s v H. unfold check_limits in H. apply andb_prop in H. destruct H as (Hl & H). split.
+  - intros El. rewrite El in Hl. apply andb_prop in Hl. destruct Hl as (H1 & H2). apply Z.leb_le in H1, H2. lia.
+  - clear Hl. destruct (l_min L) eqn:Em, (l_max L) eqn:Ex; simpl in H.
     + destruct (vmax s <? vmin s) eqn:E; [discriminate|]. apply Z.ltb_ge in E.
       apply andb_prop in H. destruct H as (H1 & H2). apply negb_true_iff in H1, H2.
       apply Z.ltb_ge in H1, H2. repeat split; intros; lia.
@@ -38,27 +29,15 @@ Proof.
     + repeat split; intros; discriminate.
 Qed.
 
-Lemma write_accepted_effective : forall L s v s' r, step L s (WriteA v) = (s', ROk r) ->
-  within_effective L s v /\ va s' = v /\ r = [v].
+Lemma write_accepted_within_all : forall L s v s' r, step L s (WriteA v) = (s', ROk r) ->
+  within_all L s v /\ va s' = v /\ r = [v].
 Proof.
   intros L s v s' r H. simpl in H.
   destruct (in_base L v) eqn:Eb; simpl in H; [|discriminate].
   destruct (check_limits L s v) eqn:Ec; [|discriminate].
   injection H as <- <-. unfold in_base in Eb. apply andb_prop in Eb. destruct Eb as (B1 & B2).
-  apply Z.leb_le in B1, B2. pose proof (check_limits_sound L s v Ec) as Hs.
-  split; [|split; reflexivity]. unfold within_effective. split; [lia|].
-  destruct (l_lim L); tauto.
-Qed.
-
-Lemma write_accepted_within_all : forall L s v s' r, shadowed L = false -> step L s (WriteA v) = (s', ROk r) ->
-  within_all L s v /\ va s' = v.
-Proof.
-  intros L s v s' r Hsh H. destruct (write_accepted_effective L s v s' r H) as ((Hb & He) & Hv & _).
-  split; auto. unfold within_all, shadowed in *. split; auto.
-  destruct (l_lim L) eqn:El.
-  - simpl in Hsh. apply orb_false_iff in Hsh. destruct Hsh as (-> & ->).
-    repeat split; intros; try discriminate; lia.
-  - repeat split; intros; try discriminate; tauto.
+  apply Z.leb_le in B1, B2. destruct (check_limits_sound L s v Ec) as (H1 & H2 & H3 & _).
+  split; [|split; reflexivity]. unfold within_all. repeat split; auto; lia.
 Qed.
 
 Lemma write_refused_unchanged : forall L s v s' c, step L s (WriteA v) = (s', RErr c) -> s' = s /\ c = 1%nat.
@@ -67,17 +46,17 @@ Proof.
   injection H as <- <-. auto.
 Qed.
 
-(* an inverted pair in force refuses every write *)
+(* an inverted pair in force - the limits tuple or a_min > a_max, whatever else exists - refuses every write *)
 Definition inverted_in_force (L : layout) (s : state) : Prop :=
-  if l_lim L then snd (vlim s) < fst (vlim s)
-  else l_min L = true /\ l_max L = true /\ vmax s < vmin s.
+  (l_lim L = true /\ snd (vlim s) < fst (vlim s)) \/ (l_min L = true /\ l_max L = true /\ vmax s < vmin s).
 
 Lemma inverted_refuses_all : forall L s v, inverted_in_force L s -> step L s (WriteA v) = (s, RErr 1).
 Proof.
   intros L s v H. simpl. destruct (in_base L v && check_limits L s v) eqn:E; auto.
-  apply andb_prop in E. destruct E as (_ & Ec). pose proof (check_limits_sound L s v Ec) as Hs.
-  unfold inverted_in_force in H. destruct (l_lim L); [lia|].
-  destruct H as (Hm & Hx & Hlt). destruct Hs as (_ & _ & Ho). specialize (Ho Hm Hx). lia.
+  apply andb_prop in E. destruct E as (_ & Ec). destruct (check_limits_sound L s v Ec) as (H1 & _ & _ & Ho).
+  destruct H as [(Hl & Hlt) | (Hm & Hx & Hlt)].
+  - specialize (H1 Hl). lia.
+  - specialize (Ho Hm Hx). lia.
 Qed.
 
 (* LimitsType parameter: an inverted pair is refused by a write, and the parameter never holds one *)
